@@ -63,7 +63,13 @@ class Table:
             self.raw_name = escape_identifier_name(table_name)
             if schema:
                 warnings.warn("Name is in schema.table format, schema param is ignored")
-        self.alias = escape_identifier_name(kwargs.pop("alias", self.raw_name))
+        # without an explicit alias the table answers to its own name, which is normalised already: normalising it
+        # again would lower-case a quoted mixed-case name and let it shadow another table called that way
+        self.alias = (
+            escape_identifier_name(kwargs.pop("alias"))
+            if "alias" in kwargs
+            else self.raw_name
+        )
 
     def __str__(self):
         return f"{self.schema}.{self.raw_name}"
